@@ -566,3 +566,90 @@ def family_taint():
     add(N, "n_no_source", ["t = 4", "sink(t)", "return 0"])
     add(N, "n_no_sink", ["t = source()", "out(t)", "return 0"])
     return F, N
+
+
+# ---- C11: rule sets and extra programs -----------------------------------------------------------------------------------------
+def taint_rules_yaml(rules, kind):
+    """rules: dicts(kind, name, lang, target, unit_name, line_num) -> yaml text of source.yaml / sink.yaml"""
+    groups = {}
+    for r in rules:
+        if r["kind"] == kind:
+            groups.setdefault(r.get("lang", "python"), []).append(r)
+    if not groups:
+        return "[]\n"
+    out = []
+    for lang, rs in groups.items():
+        out.append(f'- lang: "{lang}"\n  rules:\n')
+        for r in rs:
+            out.append(f"    - operation: call_stmt\n      name: {r['name']}\n")
+            if kind == "source":
+                out.append('      tag: ["%target"]\n')
+            else:
+                out.append(f"      target: [\\%arg{r.get('arg', 0)}]\n      vuln_type: generic_sink\n")
+            if r.get("unit_name"):
+                out.append(f"      unit_name: {r['unit_name']}\n")
+            if r.get("line_num"):
+                out.append(f"      line_num: {r['line_num']}\n")
+    return "".join(out)
+
+
+def taint_settings(rules):
+    s = dict(TAINT_SETTINGS)
+    s["source.yaml"] = taint_rules_yaml(rules, "source")
+    s["sink.yaml"] = taint_rules_yaml(rules, "sink")
+    return s
+
+
+def SRC(name="source", **kw):
+    return dict(kind="source", name=name, **kw)
+
+
+def SNK(name="sink", arg=0, **kw):
+    return dict(kind="sink", name=name, arg=arg, **kw)
+
+
+def taint_configs():
+    """name -> (rules, relation to check against `base`)"""
+    base = [SRC(), SNK()]
+    return {
+        "base": (base, None),
+        "sink_designates_arg1": ([SRC(), SNK(arg=1)], None),
+        "no_source_rules": ([SNK()], "empty"),
+        "no_sink_rules": ([SRC()], "empty"),
+        "rules_name_other_functions": ([SRC("nosuchsource"), SNK("nosuchsink")], "empty"),
+        "rules_for_another_language": ([SRC(lang="java"), SNK(lang="java")], "empty"),
+        "source_rule_restricted_to_unit": ([SRC(unit_name="t_copy.py"), SNK()], None),
+        "sink_rule_restricted_to_unit": ([SRC(), SNK(unit_name="t_binop.py")], None),
+        "source_rule_restricted_to_line": ([SRC(line_num=2), SNK()], None),
+        "sink_rule_restricted_to_line": ([SRC(), SNK(line_num=3)], None),
+        "position_of_a_rule_restricted_to_another_unit": ([SRC(), SNK(arg=1), SNK(arg=0, unit_name="t_copy.py")], None),
+        "position_of_a_rule_restricted_to_another_line": ([SRC(), SNK(arg=1), SNK(arg=0, line_num=1)], None),
+        "extended": (base + [SNK("out"), SRC("inp"), SNK(arg=1), SRC("nosuchsource")], "superset"),
+        "extended_by_restricted_rules": (base + [SRC(unit_name="t_copy.py"), SNK(line_num=3), SNK("out", unit_name="n_no_sink.py")], "superset"),
+    }
+
+
+def family_taint_justified():
+    """C11 programs: the C10 family plus programs in which some tempting but unjustified pair exists"""
+    F, N = family_taint()
+    KO = "class Box:\n    def __init__(self, v):\n        self.v = v\n    def get(self):\n        return self.v\n    def put(self, x):\n        self.v = x\n"
+    X = []
+
+    def add(name, lines, helpers=""):
+        p = prog(name, "F-taint-just", lines, helpers=helpers)
+        p["src"] += TAIL
+        X.append(p)
+    add("j_unrelated_container", ["l = [source()]", "m = [1]", "sink(m[0])", "return 0"])
+    add("j_wrong_parameter", ["t = source()", "h(t, 5)", "return 0"], helpers="def h(p, q):\n    sink(q)\n")
+    add("j_result_dropped", ["source()", "u = g()", "sink(u)", "return 0"], helpers="def g():\n    return 3\n")
+    add("j_alias_of_sink", ["s = sink", "t = source()", "s(t)", "return 0"])
+    add("j_alias_of_source", ["s = source", "t = s()", "sink(t)", "return 0"])
+    add("j_method_flow", ["o = Box(0)", "o.put(source())", "sink(o.get())", "return 0"], helpers=KO)
+    add("j_method_other_object", ["o = Box(0)", "p = Box(1)", "o.put(source())", "sink(p.get())", "return 0"], helpers=KO)
+    add("j_sink_before_source_other_var", ["v = 1", "sink(v)", "t = source()", "out(t)", "return 0"])
+    add("j_two_args_both_positions", ["t = source()", "sink(t, 2)", "sink(3, t)", "return 0"])
+    add("j_source_as_argument_of_other_call", ["t = source()", "u = g(t)", "sink(u)", "return 0"], helpers="def g(p):\n    return 4\n")
+    add("j_closure", ["t = source()", "def inner():", "    sink(t)", "inner()", "return 0"])
+    add("j_global", ["set_g()", "sink(G)", "return 0"], helpers="G = 0\ndef set_g():\n    global G\n    G = source()\n")
+    add("j_inp_to_out", ["t = inp(0)", "out(t)", "sink(a)", "return 0"])
+    return F + N + X
